@@ -30,7 +30,11 @@ from .comment import (
     EmptyCommentStyle,
     get_comment_style,
 )
-from .exceptions import CommentCreateError, MissingReuseInfoError
+from .exceptions import (
+    CommentCreateError,
+    MissingReuseInfoError,
+    TemplateRenderError,
+)
 from .extract import contains_reuse_info, detect_line_endings
 from .header import add_new_header, find_and_replace_header
 from .i18n import _
@@ -164,6 +168,14 @@ def add_header_to_file(
     except CommentCreateError:
         out.write(
             _("Error: Could not create comment for '{path}'").format(path=path)
+        )
+        out.write("\n")
+        result = 1
+    except TemplateRenderError as error:
+        out.write(
+            _(
+                "Error: Could not render the template for '{path}': {error}"
+            ).format(path=path, error=error)
         )
         out.write("\n")
         result = 1
